@@ -178,6 +178,7 @@ func lifeHTTPLate(c *Ctx, attempts, conns int) {
 		}()
 		var inFlight, lateHooks int32
 		for a := 0; a < attempts; a++ {
+			c.Touch()
 			n, h, st := lateAttempt(c.R, conns)
 			if st != "ok" {
 				return st
